@@ -925,6 +925,16 @@ impl QuantizedCauchy {
 #[derive(Debug)]
 struct Binomial;
 
+fn binomial_distribution(n: i32, p: f64) -> probability::distribution::Binomial {
+    // `probability::distribution::Binomial::new` validates `p` only in debug builds; an invalid `p`
+    // (e.g., `2.0` or `NaN`) would silently yield a broken entropy model or an endless loop.
+    assert!(
+        (0.0..=1.0).contains(&p),
+        "Invalid model parameter: `p` must be between 0.0 and 1.0 (both inclusive)."
+    );
+    probability::distribution::Binomial::new(n as usize, p)
+}
+
 #[pymethods]
 impl Binomial {
     #[new]
@@ -934,7 +944,7 @@ impl Binomial {
             (None, None) => {
                 let model = internals::ParameterizableModel::new(move |(n, p): (i32, f64)| {
                     let quantizer = DefaultLeakyQuantizer::new(0..=n);
-                    let distribution = probability::distribution::Binomial::new(n as usize, p);
+                    let distribution = binomial_distribution(n, p);
                     quantizer.quantize(distribution)
                 });
                 Arc::new(model) as Arc<dyn internals::Model>
@@ -942,20 +952,20 @@ impl Binomial {
             (Some(n), None) => {
                 let quantizer = DefaultLeakyQuantizer::new(0..=n);
                 let model = internals::ParameterizableModel::new(move |(p,): (f64,)| {
-                    let distribution = probability::distribution::Binomial::new(n as usize, p);
+                    let distribution = binomial_distribution(n, p);
                     quantizer.quantize(distribution)
                 });
                 Arc::new(model) as Arc<dyn internals::Model>
             }
             (Some(n), Some(p)) => {
-                let distribution = probability::distribution::Binomial::new(n as usize, p);
+                let distribution = binomial_distribution(n, p);
                 let quantizer = DefaultLeakyQuantizer::new(0..=n);
                 Arc::new(quantizer.quantize(distribution)) as Arc<dyn internals::Model>
             }
             (None, Some(p)) => {
                 let model = internals::ParameterizableModel::new(move |(n,): (i32,)| {
                     let quantizer = DefaultLeakyQuantizer::new(0..=n);
-                    let distribution = probability::distribution::Binomial::new(n as usize, p);
+                    let distribution = binomial_distribution(n, p);
                     quantizer.quantize(distribution)
                 });
                 Arc::new(model) as Arc<dyn internals::Model>
